@@ -51,6 +51,10 @@ def plan(tier, seed):
         tasks.append(('compress', {'n': n}))
     for n in (1, 2, 3):
         tasks.append(('notes_batch', {'n': n}))
+    for n in ((1, 2) if tier == 'quick' else (1, 2, 3)):
+        tasks.append(('rebase_loop', {'commits': n}))
+        tasks.append(('rebase_loop', {'commits': n, 'two': True}))
+    tasks.append(('rebase_loop', {'commits': 2, 'with_notes': ['n1']}))
     return tasks
 
 
@@ -370,10 +374,241 @@ def ob_notes_batch(h, shape):
     h.sample = h.witness()
 
 
-OBLIGATIONS = {'ranges': ob_ranges, 'upsert': ob_upsert, 'state': ob_state, 'compress': ob_compress, 'notes_batch': ob_notes_batch}
+PR = 'authorship::authorship_log::PromptRecord'
+AGENT = 'authorship::working_log::AgentId'
+
+
+def _mk_prompt(M, tool):
+    agent = mk_struct(M, AGENT, tool=pystring(tool), id=pystring('id-' + tool), model=pystring('m'))
+    return mk_struct(M, PR, agent_id=agent, human_author=none(), messages=VecV([]), total_additions=Sc(0, 32),
+                     total_deletions=Sc(0, 32), accepted_lines=Sc(0, 32), overriden_lines=Sc(0, 32), messages_url=none())
+
+
+def parse_note(text):
+    """the note format: attestation section, a `---` line, JSON metadata"""
+    import json
+    head, _, meta = text.partition('\n---\n')
+    if not _ and text.startswith('---\n'):
+        head, meta = '', text[4:]
+    files = []
+    for line in head.split('\n'):
+        if not line.strip():
+            continue
+        if line.startswith('  '):
+            hsh, _, rs = line.strip().partition(' ')
+            lines = set()
+            for r in rs.split(','):
+                if '-' in r:
+                    a, b = r.split('-')
+                    lines |= set(range(int(a), int(b) + 1))
+                elif r:
+                    lines.add(int(r))
+            files[-1][1].append((hsh, lines))
+        else:
+            files.append((line.strip().strip('"'), []))
+    return files, json.loads(meta)
+
+
+def ob_rebase_loop(h, shape):
+    """K4: the per-commit loop of rewrite_authorship_after_rebase_v2 (content replay, the slow path).  Everything that
+    asks git is environment (which commits already have notes, the tracked paths, the original head's attributions,
+    the per-commit changed files and contents); the loop itself, the replay step, the attestation upkeep, the prompt
+    metrics and the note assembly are the real code.  Each note handed to notes_add_batch must be well-formed for
+    ITS commit: base_commit_sha names it, every session it attests has a prompt record, it lists only files that
+    exist in that commit and only lines that exist in them - whether or not the commit touched a tracked file."""
+    from harness import c02
+    P = h.P
+    M = P.M
+    n = shape['commits']
+    O = ['a', 'b', 'c']
+    who = {'a': 's1', 'c': 's2'} if shape.get('two') else {'a': 's1'}
+    oc, ol = c02._attrs(M, O, who)
+    prompts = MapV('btree', [[pystring(k), MapV('btree', [[pystring('orig'), _mk_prompt(M, t)]], 'map')] for k, t in (('s1', 'cursor'), ('s2', 'claude'))[:2 if shape.get('two') else 1]], 'map')
+    va = mk_struct(M, VAS, repo=Agg('git::repository::Repository', []), base_commit=pystring('orig'),
+                   attributions=MapV('hash', [[pystring('f'), tup(oc, ol)]], 'map'),
+                   file_contents=MapV('hash', [[pystring('f'), StringV(list(c02._text(O)))]], 'map'),
+                   prompts=prompts, ts=Sc(1, 128), blame_start_commit=none())
+    subs = [x for x in c02.subsets(O)]
+    steps = []
+    content = list(O)
+    per_commit = {}
+    state_lines = []
+    for i in range(n):
+        cm = 'n%d' % (i + 1)
+        # a commit that already has a note is an upstream commit: it is skipped and, here, does not touch the tracked file
+        k = 0 if cm in shape.get('with_notes', []) else h.choice(4)
+        if k == 0:
+            steps.append(None)                     # touches no tracked file
+        elif k == 1:
+            content = []                           # deletes the tracked file
+            steps.append(content)
+            per_commit[cm] = []
+        else:
+            content = subs[1 + h.choice(len(subs) - 1)] if k == 2 else list(O)
+            steps.append(list(content))
+            per_commit[cm] = list(content)
+        state_lines.append(list(content))
+    P.state['c05_rebase'] = {'va': va, 'commits': ['n%d' % (i + 1) for i in range(n)], 'changed': per_commit, 'written': [], 'with_notes': shape.get('with_notes', [])}
+    P.state['c02_open'] = True
+    h.inputs_struct = {'original': O, 'authors': who, 'steps': steps, 'with_notes': shape.get('with_notes', [])}
+    repo = Agg('git::repository::Repository', [])
+    origs = VecV([pystring('o%d' % (i + 1)) for i in range(n)])
+    news = VecV([pystring('n%d' % (i + 1)) for i in range(n)])
+    try:
+        r = P.call_named(RA + '::rewrite_authorship_after_rebase_v2', [Ref(Cell(repo)), pystr('orig'), SliceRef(origs, 0, n), SliceRef(news, 0, n), pystr('Human')])
+    except Panic as e:
+        h.panic('K4-no-panic', e.msg)
+        return
+    h.require(r.var == 'Ok', 'K4-rebase-rewrite-ok', 'the rewrite failed')
+    if r.var != 'Ok':
+        return
+    written = P.state['c05_rebase']['written']
+    to_process = [c for c in P.state['c05_rebase']['commits'] if c not in shape.get('with_notes', [])]
+    got = [c for c, _ in written]
+    h.require(len(set(got)) == len(got) and set(got) <= set(to_process), 'K4-notes-only-for-rewritten-commits-once', 'notes written for %r, commits to process %r' % (got, to_process))
+    h.cover('K4-a-commit-without-tracked-change-got-a-note', any(steps[int(c[1:]) - 1] is None for c in got))
+    h.cover('K4-a-commit-with-tracked-change-got-a-note', any(steps[int(c[1:]) - 1] is not None for c in got))
+    for cm, text in written:
+        i = int(cm[1:]) - 1
+        try:
+            files, meta = parse_note(text)
+        except Exception as e:
+            h.require(False, 'K4-note-parses', 'note of %s does not parse: %s' % (cm, e))
+            continue
+        h.require(meta.get('base_commit_sha') == cm, 'K4-note-names-its-own-commit', 'note written for %s says base_commit_sha=%r' % (cm, meta.get('base_commit_sha')))
+        named = {hsh for _, ents in files for hsh, _ in ents}
+        h.require(named <= set(meta.get('prompts', {})), 'K4-every-attested-session-has-a-record', 'note of %s attests sessions %r but has records for %r' % (cm, sorted(named), sorted(meta.get('prompts', {}))))
+        nlines = len(state_lines[i])
+        for fname, ents in files:
+            h.require(fname == 'f' and nlines > 0, 'K4-only-files-of-the-commit', 'note of %s lists %r, which does not exist in that commit' % (cm, fname))
+            for hsh, ls in ents:
+                h.require(all(1 <= l <= nlines for l in ls), 'K4-only-lines-of-the-file', 'note of %s lists lines %r of a %d-line file' % (cm, sorted(ls), nlines))
+                want = {j + 1 for j, x in enumerate(state_lines[i]) if who.get(x) == hsh}
+                h.require(ls == want, 'K4-lines-are-the-sessions-surviving-lines', 'note of %s gives session %s lines %r; its surviving lines are %r' % (cm, hsh, sorted(ls), sorted(want)))
+    h.sample = h.witness()
+
+
+OBLIGATIONS = {'rebase_loop': ob_rebase_loop, 'ranges': ob_ranges, 'upsert': ob_upsert, 'state': ob_state, 'compress': ob_compress, 'notes_batch': ob_notes_batch}
+
+
+def _replay_rebase_loop(v, native):
+    """K4 natively: originals and rewritten commits built with git plumbing (upstream carries the tracked file with the
+    original head's content, so that a rewritten commit may leave it untouched), the original's note written with
+    git notes, then the real rewrite_authorship_after_rebase_v2; the notes are read back with git"""
+    import os
+    import subprocess
+    import tempfile
+    from harness import c02
+    inp = v['inputs']
+    ob = v['obligation']
+    if inp.get('with_notes'):
+        return {'reproduced': False, 'note': 'rewritten commits that already carry a note are not staged natively'}
+    tmp = tempfile.mkdtemp(prefix='vc05r')
+    env = dict(os.environ, GIT_AUTHOR_NAME='v', GIT_AUTHOR_EMAIL='v@v', GIT_COMMITTER_NAME='v', GIT_COMMITTER_EMAIL='v@v',
+               HOME=tmp, GIT_CONFIG_NOSYSTEM='1', GIT_AUTHOR_DATE='1700000000 +0000', GIT_COMMITTER_DATE='1700000000 +0000')
+
+    def git(*a, **kw):
+        p = subprocess.run(['git'] + list(a), cwd=tmp, env=env, stdout=subprocess.PIPE, stderr=subprocess.PIPE, input=kw.get('input'))
+        if p.returncode != 0:
+            raise RuntimeError('git %r: %s' % (a, p.stderr.decode()))
+        return p.stdout.decode().strip()
+
+    def tree(files):
+        lines = b''
+        for name, content in sorted(files.items()):
+            blob = git('hash-object', '-w', '--stdin', input=content)
+            lines += ('100644 blob %s\t%s' % (blob, name)).encode() + b'\0'
+        return git('mktree', '-z', input=lines)
+    try:
+        git('init', '-q', '.')
+        O = inp['original']
+        who = inp['authors']
+        otext = c02._text(O)
+        base = git('commit-tree', '-m', 'base', tree({'base.txt': b'base\n'}))
+        upstream = git('commit-tree', '-m', 'upstream', '-p', base, tree({'base.txt': b'base\n', 'f': otext, 'up.txt': b'u\n'}))
+        steps = inp['steps']
+        n = len(steps)
+        originals = []
+        parent = base
+        for i in range(n):
+            files = {'base.txt': b'base\n', 'f': otext}
+            for j in range(1, i + 1):
+                files['other%d.txt' % j] = b'x\n'
+            parent = git('commit-tree', '-m', 'o%d' % (i + 1), '-p', parent, tree(files))
+            originals.append(parent)
+        # the note of the original that added the file
+        ranges = {}
+        for j, x in enumerate(O):
+            if who.get(x):
+                ranges.setdefault(who[x], []).append(j + 1)
+        txt = native('c05_note_text', {'file': 'f', 'sessions': [[k, ls] for k, ls in sorted(ranges.items())], 'base': originals[0],
+                                       'records': ['s1', 's2'][:2 if 's2' in who.values() else 1]})['text']
+        git('notes', '--ref=ai', 'add', '-f', '-F', '-', originals[0], input=txt.encode())
+        news = []
+        parent = upstream
+        cur = otext
+        state = []
+        for i, st in enumerate(steps):
+            if st is not None:
+                cur = c02._text(st)
+            files = {'base.txt': b'base\n', 'up.txt': b'u\n'}
+            if cur:
+                files['f'] = cur
+            for j in range(1, i + 1):
+                files['other%d.txt' % j] = b'x\n'
+            files['n%d.txt' % (i + 1)] = b'n\n'
+            parent = git('commit-tree', '-m', 'n%d' % (i + 1), '-p', parent, tree(files))
+            news.append(parent)
+            state.append(cur)
+        git('update-ref', 'refs/heads/main', news[-1])
+        git('symbolic-ref', 'HEAD', 'refs/heads/main')
+        git('reset', '-q', '--hard')
+        r = native('c05_rebase_loop', {'repo': tmp, 'original_head': originals[-1], 'originals': originals, 'news': news})
+        if 'panic' in r:
+            return {'reproduced': v['kind'] == 'panic', 'native': r}
+        if v['kind'] == 'panic':
+            return {'reproduced': False, 'native': r}
+        if not r.get('ok'):
+            return {'reproduced': ob == 'K4-rebase-rewrite-ok', 'native': r}
+        bad = {k: False for k in ('K4-note-parses', 'K4-note-names-its-own-commit', 'K4-every-attested-session-has-a-record', 'K4-only-files-of-the-commit',
+                                  'K4-only-lines-of-the-file', 'K4-lines-are-the-sessions-surviving-lines')}
+        notes = {}
+        for i, cm in enumerate(news):
+            p = subprocess.run(['git', 'notes', '--ref=ai', 'show', cm], cwd=tmp, env=env, stdout=subprocess.PIPE, stderr=subprocess.PIPE)
+            if p.returncode != 0:
+                continue
+            text = p.stdout.decode()
+            notes[i] = text
+            try:
+                files, meta = parse_note(text.rstrip('\n'))
+            except Exception:
+                bad['K4-note-parses'] = True
+                continue
+            if meta.get('base_commit_sha') != cm:
+                bad['K4-note-names-its-own-commit'] = True
+            named = {hsh for _, ents in files for hsh, _ in ents}
+            if not named <= set(meta.get('prompts', {})):
+                bad['K4-every-attested-session-has-a-record'] = True
+            lines_now = [ln for ln in state[i].decode().split('\n') if ln]
+            text_of = {c02.LINES[x].decode().rstrip('\n'): x for x in O}
+            for fname, ents in files:
+                if fname != 'f' or not lines_now:
+                    bad['K4-only-files-of-the-commit'] = True
+                    continue
+                for hsh, ls in ents:
+                    if not all(1 <= l <= len(lines_now) for l in ls):
+                        bad['K4-only-lines-of-the-file'] = True
+                    want = {j + 1 for j, ln in enumerate(lines_now) if who.get(text_of.get(ln)) == hsh}
+                    if ls != want:
+                        bad['K4-lines-are-the-sessions-surviving-lines'] = True
+        return {'reproduced': bool(bad.get(ob)), 'native': r, 'notes': notes}
+    finally:
+        subprocess.call(['rm', '-rf', tmp])
 
 
 def replay(v, native):
+    if 'steps' in v['inputs']:
+        return _replay_rebase_loop(v, native)
     if 'existing' in v['inputs']:
         inp = v['inputs']
         r = native('c05_notes_batch', inp)
@@ -425,6 +660,63 @@ def replay(v, native):
 
 def install(M):
     _install_notes(M)
+    _install_rebase(M)
+
+
+def _install_rebase(M):
+    def st_(P):
+        st = P.state.get('c05_rebase')
+        if st is None:
+            raise Unsupported('rebase environment outside the rebase-loop obligation')
+        return st
+
+    def with_notes(P, c, args, dt):
+        return ok(MapV('hash', [[pystring(x), None] for x in st_(P)['with_notes']], 'set'))
+
+    def pathspecs(P, c, args, dt):
+        st_(P)
+        return ok(VecV([pystring('f')]))
+
+    def fast_path(P, c, args, dt):
+        st_(P)
+        return ok(FALSE)
+
+    def merge_base(P, c, args, dt):
+        return err(Opaque('GitAiError', 'no merge base'))
+
+    def block_on(P, c, args, dt):
+        return ok(clone_val(P, st_(P)['va']))
+
+    def tree_pairs(P, c, args, dt):
+        return ok(VecV([tup(pystring(bytes(concrete_bytes(as_bytes(x))).decode()), pystring('tp'), pystring('tc')) for x in elems_of(args[1])]))
+
+    def changed(P, c, args, dt):
+        st = st_(P)
+        from harness import c02
+        ent = []
+        for cm, lines in st['changed'].items():
+            ent.append([pystring(cm), tup(MapV('hash', [[pystring('f'), None]], 'set'), MapV('hash', [[pystring('f'), StringV(list(c02._text(lines)))]], 'map'))])
+        return ok(MapV('hash', ent, 'map'))
+
+    def load_notes(P, c, args, dt):
+        return ok(MapV('hash', [], 'map'))
+
+    def add_batch(P, c, args, dt):
+        st = st_(P)
+        for e in elems_of(args[1]):
+            st['written'].append((bytes(concrete_bytes(as_bytes(e.f[0]))).decode(), bytes(concrete_bytes(as_bytes(e.f[1]))).decode()))
+        return ok(unit())
+    RAx = RA
+    M.env['git::refs::commits_with_authorship_notes'] = with_notes
+    M.env[RAx + '::get_pathspecs_from_commits'] = pathspecs
+    M.env[RAx + '::filter_pathspecs_to_ai_touched_files'] = pathspecs
+    M.env[RAx + '::try_fast_path_rebase_note_remap'] = fast_path
+    M.env['git::repository::Repository::merge_base'] = merge_base
+    M.env['smol::block_on'] = block_on
+    M.env[RAx + '::build_first_parent_tree_pairs'] = tree_pairs
+    M.env[RAx + '::collect_changed_file_contents_for_commit_pairs'] = changed
+    M.env[RAx + '::load_note_contents_for_commit_pairs'] = load_notes
+    M.env['git::refs::notes_add_batch'] = add_batch
 
 
 def _install_notes(M):
@@ -456,3 +748,4 @@ def _install_notes(M):
     M.env['git::repository::Repository::global_args_for_exec'] = global_args
     M.env['git::repository::exec_git'] = exec_git
     M.env['git::repository::exec_git_stdin'] = exec_git_stdin
+MUST_COVER = ['K4-a-commit-without-tracked-change-got-a-note', 'K4-a-commit-with-tracked-change-got-a-note']
